@@ -89,16 +89,21 @@ var c02Statuses = []int{
 	500, 502, 503, 599,
 }
 
-var c02BodyLens = []int{0, 0, 7, maxInboundBodySize - 1, maxInboundBodySize, maxInboundBodySize + 1, 200000}
+// bodies never decide the verdict; the large ones (≈ 5 ms each on loopback) are kept to one case in five
+var c02BodyLens = []int{
+	0, 0, 0, 0, 0, 7, 7, 7, 100, 100, 1000, 1000, 4096, 4096, 70000, 70000,
+	maxInboundBodySize - 1, maxInboundBodySize, maxInboundBodySize + 1, 200000,
+}
 
 func c02GenBehaviour(t *rapid.T, l string) c02Behaviour {
 	var b c02Behaviour
 	switch k := rapid.IntRange(0, 79).Draw(t, l+"behKind"); {
-	case k == 0:
+	// rapid favours small values: the expensive (60 ms) hang sits in the middle of the range on purpose
+	case k == 41:
 		b.kind = "hang"
-	case k <= 4:
+	case k >= 42 && k <= 45:
 		b.kind = "close"
-	case k <= 14:
+	case k >= 46 && k <= 55:
 		b.kind = "redirect"
 		b.redirect = rapid.SampledFrom([]int{307, 308}).Draw(t, l+"redirect")
 		b.status = rapid.SampledFrom(c02Statuses).Draw(t, l+"status2")
@@ -200,6 +205,10 @@ func TestVerifC02HTTP(t *testing.T) {
 			}
 			if rapid.IntRange(0, 2).Draw(t, l+"noPass") == 0 {
 				pass = ""
+			}
+			if proto != "" && rapid.IntRange(0, 2).Draw(t, l+"queryOnly") == 0 {
+				// only the query can carry a token: the protocol decides whether it is looked at
+				tokenField, pass = "", ""
 			}
 			var query string
 			queryConsulted := tokenField == "" && pass == "" && (proto == ProtocolRTSP || proto == ProtocolRTMP)
